@@ -51,6 +51,7 @@ use crate::theta::serialization::V2_PREAMBLE_PRECISE;
 
 /// Mutable theta sketch for building from input data
 #[derive(Debug)]
+#[cfg_attr(feature = "verif-hooks", derive(Clone))]
 pub struct ThetaSketch {
     table: ThetaHashTable,
 }
@@ -1138,5 +1139,22 @@ mod tests {
         let err = CompactThetaSketch::deserialize(&bytes).unwrap_err();
         assert_eq!(err.kind(), crate::error::ErrorKind::InvalidData);
         assert!(err.message().contains("insufficient data"));
+    }
+}
+
+#[cfg(feature = "verif-hooks")]
+impl ThetaSketch {
+    /// Verification hook: offers a chosen 63-bit hash exactly as `update` offers a computed
+    /// one (screened against theta, then inserted). Returns whether it was newly inserted.
+    pub fn verif_insert_hash(&mut self, hash: u64) -> bool {
+        if hash == 0 || hash >= self.table.theta() {
+            return false;
+        }
+        self.table.try_insert(hash)
+    }
+
+    /// Verification hook: `(lg_cur_size, raw table)`.
+    pub fn verif_table(&self) -> (u8, Vec<u64>) {
+        self.table.verif_table()
     }
 }
